@@ -20,6 +20,26 @@ The subset (everything else raises `Unsupported`, which makes the generated file
                re-bound at the call site (Python aliasing of the caller's object); `self.<field>` mutation rebuilds `self`
 
 Types come from the spec: "set" (PSet), "bool", "nat", "step" (PStep), "unit", "boolorset".
+
+Extension for `CfwManager` (cfw_manager.py; run-time meaning in `Model/PyRtDict.lean`):
+  types        "uuid", "sid" (a `str` as a Nat id; id 0 is the empty string, the only falsy one), "objid" (an object that is only
+               stored and handed back) - all Lean `Nat`, but `==` is only accepted between equal types; "any" (`Any`: `Option Nat`,
+               `none` = Python None); composite `opt[T]` (`Optional[T]`), `tuple[A,B]`, `dict[K,V]` with K a uuid / sid: an
+               insertion-ordered dict as an association list `NDict V` (an existing key keeps its place, a new key goes to the end)
+  expressions  `(a, b)`; `t[0]` / `t[1]` on a tuple; `d[k]` (KeyError), `k in d`, `d.get(k)` / `d.get(k, None)`, `{}`;
+               `x is None` / `x is not None` on `opt[..]` / "any" values; truthiness of `opt[..]` (None is falsy, then the
+               value's own truthiness), of a tuple (a pair is truthy) and of a "sid"; a method call on an `opt[dict]`
+               receiver dereferences it (`None.get` raises AttributeError)
+  statements   `d[k] = v`; `self.<field> = v` (also annotated); `a, b = t`; `for k, v in d.items():`; assignment to a loop variable
+               inside the body (a mutable shadow - the iteration is not affected, as in Python); `return` inside a `for`;
+               **`while cond:` gets FUEL**: the generated function (and every translated caller) takes an extra parameter
+               `fuel : Nat`, the loop is `for _ in List.range fuel` around `if not cond: break; body`, and when `fuel`
+               executions of the body did not make `cond` false the function ends with `throw .fuel`.  So a result other than
+               `.error .fuel` at some fuel is the result of the Python call; `.error .fuel` at EVERY fuel means that the Python
+               call does not return.  (`while ... else` is outside the subset; `break` inside a `while` body is supported.)
+  coercions    a `T` where an `opt[T]` is expected is `some`, `None` where an `opt[..]` / "any" is expected is `none` (return
+               values, attribute and item assignment).  There is no flow narrowing: a function that returns an `Optional` local
+               after `if x is None: raise` is declared with an `opt[..]` result and the bridging theorem shows it is never `none`.
 """
 from __future__ import annotations
 
@@ -30,7 +50,47 @@ from dataclasses import dataclass, field
 from pathlib import Path
 from typing import Any, Callable, Dict, List, Optional, Tuple
 
-LEAN_TY = {"obj": "Unit", "dict": "PyDict", "pyval": "PyVal", "items": "PyDict", "strlist": "List String", "set": "PSet", "bool": "Bool", "nat": "Nat", "step": "PStep", "unit": "Unit", "boolorset": "BoolOrSet", "str": "String", "natlist": "List Nat"}
+def split_ty(ty: str) -> Tuple[str, List[str]]:
+    """"dict[uuid,tuple[sid,set]]" -> ("dict", ["uuid", "tuple[sid,set]"]); a plain type -> (ty, [])"""
+    if "[" not in ty:
+        return ty, []
+    if not ty.endswith("]"):
+        raise Unsupported(f"type {ty}")
+    head, rest = ty.split("[", 1)
+    rest, args, depth, cur = rest[:-1], [], 0, ""
+    for ch in rest:
+        if ch == "," and depth == 0:
+            args.append(cur.strip())
+            cur = ""
+            continue
+        depth += ch == "["
+        depth -= ch == "]"
+        cur += ch
+    args.append(cur.strip())
+    return head, args
+
+
+class _LeanTy(dict):  # type: ignore[type-arg]
+    """Lean text of a spec type; composite types opt[T], tuple[A,B], dict[K,V], items[K,V] are built on demand"""
+
+    def __missing__(self, ty: str) -> str:
+        head, args = split_ty(ty)
+
+        def par(t: str) -> str:
+            t = self[t]
+            return f"({t})" if " " in t and not t.startswith("(") else t
+
+        if head == "opt" and len(args) == 1:
+            return f"Option {par(args[0])}"
+        if head == "tuple" and len(args) == 2:
+            return f"({self[args[0]]} × {self[args[1]]})"
+        if head in ("dict", "items") and len(args) == 2 and args[0] in ("uuid", "sid"):
+            return f"NDict {par(args[1])}"
+        raise Unsupported(f"type {ty}")
+
+
+NAT_LIKE = ("nat", "uuid", "sid", "objid")
+LEAN_TY = _LeanTy({"uuid": "Nat", "sid": "Nat", "objid": "Nat", "any": "Option Nat", "obj": "Unit", "dict": "PyDict", "pyval": "PyVal", "items": "PyDict", "strlist": "List String", "set": "PSet", "bool": "Bool", "nat": "Nat", "step": "PStep", "unit": "Unit", "boolorset": "BoolOrSet", "str": "String", "natlist": "List Nat"})
 SET_MUTATORS = {"update", "add", "difference_update", "discard", "remove", "clear"}
 LEAN_KEYWORDS = {"from", "to", "end", "at", "in", "do", "then", "else", "if", "let", "have", "show", "fun", "open", "local", "instance", "class", "structure", "def", "theorem", "where", "with", "match", "return", "for", "mut", "unless", "break", "continue", "try", "catch", "finally", "import", "namespace", "section", "variable", "universe", "export", "prefix", "infix", "notation", "macro", "syntax", "deriving", "extends", "abbrev", "example", "axiom", "private", "protected", "partial", "unsafe", "mutual", "inductive", "Type", "Prop", "Sort", "by", "using", "calc", "nomatch", "nofun", "forall", "exists"}
 
@@ -84,6 +144,7 @@ class ModuleSpec:
     attr_assign_events: Dict[str, str] = field(default_factory=dict)  # "command.step_is_done" -> event name (value appended)
     imports: List[str] = field(default_factory=lambda: ["MlodaVerif.Model.PyRt"])
     opens: List[str] = field(default_factory=lambda: ["PyRt"])
+    fstring_text: bool = False  # f-strings are rendered as their constant parts with `{}` holes instead of the token "<f-string>"
 
 
 def lname(n: str) -> str:
@@ -117,6 +178,8 @@ class FnTranslator:
         self.reassigned: List[str] = []  # parameters assigned a new value (need a mutable shadow, not returned)
         self.try_flag: Optional[str] = None
         self.lines: List[str] = []
+        self.needs_fuel = False  # the function (or a translated callee) contains a `while`: extra parameter `fuel`
+        self.while_flags: List[Optional[str]] = []  # innermost last: flag variable of a `while`, None for a `for`
 
     # ---------------------------------------------------------------- analysis
     def analyse(self, stmts: List[ast.stmt]) -> None:
@@ -142,6 +205,13 @@ class FnTranslator:
                 tgt = dotted(node.targets[0].value)
                 if tgt and tgt.startswith("self.") and tgt[5:] in self.ms.self_fields:
                     self.self_mut = True
+            if isinstance(node, (ast.Assign, ast.AnnAssign)):
+                tg0 = node.targets[0] if isinstance(node, ast.Assign) and len(node.targets) == 1 else node.target if isinstance(node, ast.AnnAssign) else None
+                tgt = dotted(tg0) if isinstance(tg0, ast.Attribute) else None
+                if tgt and tgt.startswith("self.") and tgt[5:] in self.ms.self_fields and tgt not in self.ms.attr_vars and tgt not in self.ms.attr_assign_events:
+                    self.self_mut = True
+            if isinstance(node, ast.While):
+                self.needs_fuel = True
             if isinstance(node, ast.Assign) and len(node.targets) == 1 and dotted(node.targets[0]) in self.ms.attr_assign_events:
                 self.effects = True
             if isinstance(node, ast.Break) and self.spec.continue_is_return:
@@ -171,6 +241,7 @@ class FnTranslator:
                                 self.mutated.append(a)
                     self.effects = self.effects or callee.effects
                     self.self_mut = self.self_mut or callee.self_mut
+                    self.needs_fuel = self.needs_fuel or callee.needs_fuel
                     self.oracles.update(callee.oracles)
                     for av in callee.attr_params:
                         if av not in self.env:
@@ -227,7 +298,37 @@ class FnTranslator:
             return f"PSet.truthy {txt}"
         if ty == "obj":
             return "true"  # an object without __bool__/__len__ is truthy
+        if ty == "sid":
+            return f"(strTruthy {txt})"  # the empty string (id 0) is the only falsy str
+        head, args = split_ty(ty)
+        if head == "tuple":
+            return "true"  # a pair is never empty
+        if head == "opt":
+            inner = self.truthy("v", args[0])
+            return f"({txt}).isSome" if inner == "true" else f"(Option.any (fun v => {inner}) {txt})"
         raise Unsupported(f"truthiness of a value of type {ty}: {txt}")
+
+    def coerce(self, txt: str, ty: str, want: str) -> Optional[str]:
+        """`txt : ty` used where a `want` is expected (return value, attribute / item assignment); None if not possible"""
+        if ty == want:
+            return txt
+        wh, wa = split_ty(want)
+        if ty == "unit" and txt == "()" and (wh == "opt" or want == "any"):
+            return "none"
+        if wh == "opt" and wa[0] == ty:
+            return f"(some {txt})"
+        if ty == "emptydict" and wh == "dict":
+            return "[]"
+        if ty == "emptydict" and wh == "opt" and split_ty(wa[0])[0] == "dict":
+            return "(some [])"
+        return None
+
+    def deref_receiver(self, recv: str, rty: str) -> Tuple[str, str]:
+        """receiver of a method call that has type `opt[T]`: `None.<attr>` raises AttributeError (`Opt.deref`)"""
+        head, args = split_ty(rty)
+        if head == "opt":
+            return f"(← Opt.deref {recv})", args[0]
+        return recv, rty
 
     def expr(self, e: ast.expr, pre: List[str]) -> Tuple[str, str]:
         """returns (lean term, type); statements that must run before (monadic binds of calls) are appended to `pre`"""
@@ -242,7 +343,7 @@ class FnTranslator:
                     if isinstance(part.value, ast.Name) and part.value.id in self.env:
                         continue
                     self.expr(part.value, pre)
-            return '"<f-string>"', "str"
+            return '"' + self.fstring_text(e) + '"', "str"
         if isinstance(e, ast.Constant):
             if e.value is True:
                 return "true", "bool"
@@ -259,6 +360,12 @@ class FnTranslator:
             if e.id not in self.env:
                 raise Unsupported(f"unknown name {e.id}")
             return lname(e.id), self.env[e.id]
+        if isinstance(e, ast.Tuple) and isinstance(e.ctx, ast.Load) and len(e.elts) == 2:
+            a, aty = self.expr(e.elts[0], pre)
+            b, bty = self.expr(e.elts[1], pre)
+            return f"({a}, {b})", f"tuple[{aty},{bty}]"
+        if isinstance(e, ast.Dict) and not e.keys:
+            return "[]", "emptydict"
         if isinstance(e, ast.Attribute) and dotted(e) in self.ms.attr_vars:
             vn, vt = self.ms.attr_vars[dotted(e)]
             return lname(vn), vt
@@ -281,19 +388,28 @@ class FnTranslator:
             first = self.expr(e.values[0], pre)
             n0 = len(pre)
             parts = [first] + [self.expr(v, pre) for v in e.values[1:]]
-            if len(pre) != n0:
-                raise Unsupported("call with effects in a later operand of and/or (evaluation would not be short-circuited)")
+            if len(pre) != n0 or any("←" in t for t, _ in parts[1:]):
+                raise Unsupported("call with effects / subscript that may raise in a later operand of and/or (evaluation would not be short-circuited)")
             op = " && " if isinstance(e.op, ast.And) else " || "
             return "(" + op.join(self.truthy(t, ty) for t, ty in parts) + ")", "bool"
         if isinstance(e, ast.Compare):
             if len(e.ops) != 1:
                 raise Unsupported("chained comparison")
+            op = e.ops[0]
+            if isinstance(op, (ast.Is, ast.IsNot)):
+                if not (isinstance(e.comparators[0], ast.Constant) and e.comparators[0].value is None):
+                    raise Unsupported(f"`is` other than against None: {key}")
+                l, lt = self.expr(e.left, pre)
+                if lt != "any" and split_ty(lt)[0] != "opt":
+                    raise Unsupported(f"`is None` on a value of type {lt}")
+                return (f"({l}).isNone" if isinstance(op, ast.Is) else f"({l}).isSome"), "bool"
             l, lt = self.expr(e.left, pre)
             r, rt = self.expr(e.comparators[0], pre)
-            op = e.ops[0]
             if isinstance(op, (ast.In, ast.NotIn)):
                 if rt == "dict" and lt == "str":
                     t = f"PyDict.has {r} {l}"
+                elif split_ty(rt)[0] == "dict" and split_ty(rt)[1][:1] == [lt]:
+                    t = f"NDict.has {r} {l}"
                 elif rt == "set":
                     t = f"PSet.has {r} {l}"
                 else:
@@ -302,7 +418,7 @@ class FnTranslator:
             if isinstance(op, (ast.Eq, ast.NotEq)):
                 if lt == "set" and rt == "set":
                     t = f"PSet.eq {l} {r}"
-                elif lt == rt and lt in ("nat", "bool", "str"):
+                elif lt == rt and lt in ("nat", "bool", "str", "uuid", "sid"):
                     t = f"{l} == {r}"
                 else:
                     raise Unsupported(f"== between {lt} and {rt}")
@@ -313,9 +429,14 @@ class FnTranslator:
             raise Unsupported(f"comparison {ast.dump(op)} between {lt} and {rt}")
         if isinstance(e, ast.Subscript):
             d, dty = self.expr(e.value, pre)
+            dh, da = split_ty(dty)
+            if dh == "tuple" and isinstance(e.slice, ast.Constant) and e.slice.value in (0, 1) and not isinstance(e.slice.value, bool):
+                return f"{d}.{e.slice.value + 1}", da[e.slice.value]
             k, kty = self.expr(e.slice, pre)
             if dty == "dict" and kty == "str":
                 return f"(← PyDict.getItem {d} {k})", "pyval"
+            if dh == "dict" and da and kty == da[0]:
+                return f"(← NDict.getItem {d} {k})", da[1]
             raise Unsupported(f"subscript of {dty} by {kty}")
         if isinstance(e, ast.BinOp) and isinstance(e.op, ast.Add):
             l, lt = self.expr(e.left, pre)
@@ -326,6 +447,13 @@ class FnTranslator:
         if isinstance(e, ast.Call):
             return self.call(e, pre)
         raise Unsupported(f"expression {type(e).__name__}: {ast.unparse(e)}")
+
+    def fstring_text(self, e: ast.JoinedStr) -> str:
+        """what stands for the text of an f-string: a fixed token, or (ModuleSpec.fstring_text) its constant parts with `{}` holes"""
+        if not self.ms.fstring_text:
+            return "<f-string>"
+        out = "".join(str(p.value) if isinstance(p, ast.Constant) else "{}" for p in e.values)
+        return out.replace("\\", "\\\\").replace('"', "'")
 
     def call(self, e: ast.Call, pre: List[str]) -> Tuple[str, str]:
         d = dotted(e.func)
@@ -386,6 +514,17 @@ class FnTranslator:
             raise Unsupported(f"list() of {ty}")
         if isinstance(e.func, ast.Attribute) and e.func.attr in ("items", "keys", "get") and dotted(e.func) not in self.ms.getters and dotted(e.func) not in self.ms.opaque:
             recv, rty = self.expr(e.func.value, pre)
+            recv, rty = self.deref_receiver(recv, rty)
+            rh, ra = split_ty(rty)
+            if rh == "dict" and ra:
+                if e.func.attr == "items" and not e.args:
+                    return recv, f"items[{ra[0]},{ra[1]}]"
+                if e.func.attr == "get" and (len(e.args) == 1 or (len(e.args) == 2 and isinstance(e.args[1], ast.Constant) and e.args[1].value is None)):
+                    k, kty = self.expr(e.args[0], pre)
+                    if kty == ra[0]:
+                        # absent key -> None; for `Any` values None is one of the values, otherwise the result is Optional
+                        return (f"((NDict.get? {recv} {k}).getD none)", "any") if ra[1] == "any" else (f"(NDict.get? {recv} {k})", f"opt[{ra[1]}]")
+                raise Unsupported(f"dict method call {ast.unparse(e)}")
             if rty == "dict":
                 if e.func.attr == "items" and not e.args:
                     return recv, "items"
@@ -437,6 +576,8 @@ class FnTranslator:
             call += " " + lname(av)
         for n_, _ in callee.spec.extra_params:
             call += " " + lname(n_)
+        if callee.needs_fuel:
+            call += " fuel"
         for o in callee.oracles:
             call += " " + lname(o)
         if callee.effects:
@@ -563,6 +704,16 @@ class FnTranslator:
         else:
             raise Unsupported(f"mutation of {ast.unparse(tgt)}")
 
+    def loop_var_shadows(self, loop: ast.For, names: List[str], ind: int) -> None:
+        """a loop variable assigned inside the body needs a mutable shadow (the iteration itself is not affected, as in Python)"""
+        assigned = set()
+        for node in ast.walk(ast.Module(body=loop.body, type_ignores=[])):
+            if isinstance(node, ast.Name) and isinstance(node.ctx, ast.Store):
+                assigned.add(node.id)
+        for n in names:
+            if n in assigned:
+                self.emit(ind, f"let mut {lname(n)} := {lname(n)}")
+
     def stmt(self, s: ast.stmt, ind: int) -> None:
         pre: List[str] = []
         if isinstance(s, ast.Expr) and isinstance(s.value, ast.Constant) and isinstance(s.value.value, str):
@@ -635,7 +786,49 @@ class FnTranslator:
                 f = lname(dd[5:])
                 self.emit(ind, f"self := {{ self with {f} := PyDict.set self.{f} {k} {v} }}")
                 return
+            fh, fa = split_ty(self.ms.self_fields.get(dd[5:], "")) if dd and dd.startswith("self.") else ("", [])
+            if fh == "dict" and fa and kty == fa[0] and self.coerce(v, vty, fa[1]) is not None:
+                f = lname(dd[5:])  # type: ignore[index]
+                self.emit(ind, f"self := {{ self with {f} := NDict.set self.{f} {k} {self.coerce(v, vty, fa[1])} }}")
+                return
             raise Unsupported(f"item assignment {ast.unparse(s)}")
+        if isinstance(s, (ast.Assign, ast.AnnAssign)) and (isinstance(s, ast.AnnAssign) or len(s.targets) == 1) and isinstance(s.targets[0] if isinstance(s, ast.Assign) else s.target, ast.Attribute):
+            # `self.<field> = value` (also with an annotation, as in __init__)
+            tg = s.targets[0] if isinstance(s, ast.Assign) else s.target
+            dd = dotted(tg)
+            if not (dd and dd.startswith("self.") and dd[5:] in self.ms.self_fields) or s.value is None:
+                raise Unsupported(f"attribute assignment {ast.unparse(s)[:80]}")
+            v, vty = self.expr(s.value, pre)
+            self.flush(ind, pre)
+            fty = self.ms.self_fields[dd[5:]]
+            cv = self.coerce(v, vty, fty)
+            if cv is None:
+                raise Unsupported(f"{dd} (a {fty}) assigned a {vty}")
+            self.emit(ind, f"self := {{ self with {lname(dd[5:])} := {cv} }}")
+            return
+        if isinstance(s, ast.Assign) and len(s.targets) == 1 and isinstance(s.targets[0], ast.Tuple):
+            # `a, b = t` for a pair t: the right side is evaluated once, then both names are bound
+            names = [x.id if isinstance(x, ast.Name) else None for x in s.targets[0].elts]
+            t, ty = self.expr(s.value, pre)
+            self.flush(ind, pre)
+            th, ta = split_ty(ty)
+            if th != "tuple" or len(names) != 2 or None in names or names[0] == names[1]:
+                raise Unsupported(f"unpacking {ast.unparse(s)[:80]}")
+            if not isinstance(s.value, ast.Name):
+                tmp = self.fresh("pair")
+                self.emit(ind, f"let {tmp} := {t}")
+                t = tmp
+            for i, n in enumerate(names):
+                assert n is not None
+                if n in self.declared:
+                    if self.env[n] != ta[i]:
+                        raise Unsupported(f"{n} changes type {self.env[n]} -> {ta[i]}")
+                    self.emit(ind, f"{lname(n)} := {t}.{i + 1}")
+                else:
+                    self.env[n] = ta[i]
+                    self.declared.add(n)
+                    self.emit(ind, f"let mut {lname(n)} : {LEAN_TY[ta[i]]} := {t}.{i + 1}")
+            return
         if isinstance(s, ast.Assign):
             if len(s.targets) != 1 or not isinstance(s.targets[0], ast.Name):
                 raise Unsupported(f"assignment target {ast.unparse(s)}")
@@ -660,6 +853,28 @@ class FnTranslator:
                 self.emit(ind, "else")
                 self.block(s.orelse, ind + 1)
             return
+        if isinstance(s, ast.For) and not s.orelse and isinstance(s.target, ast.Tuple):
+            # `for k, v in d.items():` over an insertion-ordered dict
+            it, ity = self.expr(s.iter, pre)
+            self.flush(ind, pre)
+            ih, ia = split_ty(ity)
+            names = [x.id if isinstance(x, ast.Name) else None for x in s.target.elts]
+            if ih != "items" or len(ia) != 2 or len(names) != 2 or None in names or names[0] == names[1]:
+                raise Unsupported(f"for {ast.unparse(s.target)} over {ity}")
+            for n, ty in zip(names, ia):
+                assert n is not None
+                if n in self.declared and self.env.get(n) != ty:
+                    raise Unsupported(f"loop variable {n} changes type {self.env[n]} -> {ty}")
+                self.env[n] = ty
+                self.declared.add(n)
+            self.emit(ind, f"for ({lname(names[0])}, {lname(names[1])}) in {it} do")  # type: ignore[arg-type]
+            self.loop_var_shadows(s, [n for n in names if n], ind + 1)
+            self._loop_depth += 1
+            self.while_flags.append(None)
+            self.block(s.body, ind + 1)
+            self.while_flags.pop()
+            self._loop_depth -= 1
+            return
         if isinstance(s, ast.For):
             if s.orelse or not isinstance(s.target, ast.Name):
                 raise Unsupported("for/else or tuple target")
@@ -671,9 +886,36 @@ class FnTranslator:
             self.env[v] = "nat"
             self.declared.add(v)
             self.emit(ind, f"for {lname(v)} in {it} do")
+            self.loop_var_shadows(s, [v], ind + 1)
             self._loop_depth += 1
+            self.while_flags.append(None)
             self.block(s.body, ind + 1)
+            self.while_flags.pop()
             self._loop_depth -= 1
+            return
+        if isinstance(s, ast.While):
+            # FUEL: at most `fuel` executions of the body; the test is evaluated before each of them and once more after the
+            # last one; if it still holds then, the function ends with `.fuel` (the Python loop would go on)
+            if s.orelse:
+                raise Unsupported("while/else")
+            flag = self.fresh("looping")
+            self.emit(ind, f"let mut {flag} : Bool := true")
+            self.emit(ind, "for _ in List.range fuel do")
+            t, ty = self.expr(s.test, pre)
+            self.flush(ind + 1, pre)
+            self.emit(ind + 1, f"if !({self.truthy(t, ty)}) then")
+            self.emit(ind + 2, f"{flag} := false")
+            self.emit(ind + 2, "break")
+            self._loop_depth += 1
+            self.while_flags.append(flag)
+            self.block(s.body, ind + 1)
+            self.while_flags.pop()
+            self._loop_depth -= 1
+            self.emit(ind, f"if {flag} then")
+            t, ty = self.expr(s.test, pre)
+            self.flush(ind + 1, pre)
+            self.emit(ind + 1, f"if {self.truthy(t, ty)} then")
+            self.emit(ind + 2, "throw .fuel")
             return
         if isinstance(s, ast.Return):
             if s.value is None:
@@ -684,7 +926,10 @@ class FnTranslator:
             if self.spec.ret == "boolorset":
                 t = f"(.bool {t})" if ty == "bool" else f"(.set {t})" if ty == "set" else t
             elif ty != self.spec.ret:
-                raise Unsupported(f"return of {ty}, {self.spec.ret} declared")
+                c = self.coerce(t, ty, self.spec.ret)
+                if c is None:
+                    raise Unsupported(f"return of {ty}, {self.spec.ret} declared")
+                t = c
             self.emit(ind, f"return {self.ret_tuple(t)}")
             return
         if isinstance(s, ast.Continue):
@@ -698,6 +943,8 @@ class FnTranslator:
                 self.emit(ind, 'log := log ++ ["break"]')
                 self.emit(ind, f"return {self.ret_tuple('()')}")
             else:
+                if self.while_flags and self.while_flags[-1] is not None:
+                    self.emit(ind, f"{self.while_flags[-1]} := false")  # the loop has ended: no fuel check after it
                 self.emit(ind, "break")
             return
         if isinstance(s, ast.With):
@@ -718,7 +965,7 @@ class FnTranslator:
                 self.expr(s.exc.args[0], pre)  # checks the interpolated expressions
                 self.flush(ind, pre)
                 ctor = ".exception" if dotted(s.exc.func) == "Exception" else ".valueError"
-                self.emit(ind, f'throw ({ctor} "<f-string>")')
+                self.emit(ind, f'throw ({ctor} "{self.fstring_text(s.exc.args[0])}")')
                 return
             if isinstance(s.exc, ast.Call) and dotted(s.exc.func) == "Exception" and all(isinstance(a, ast.Name) and self.env.get(a.id) == "str" for a in s.exc.args):
                 self.emit(ind, f'throw (.exception "{ast.unparse(s.exc)}")')
@@ -762,6 +1009,8 @@ class FnTranslator:
             params.append(f"({lname(av)} : {LEAN_TY[self.env[av]]})")
         for n, ty in self.spec.extra_params:
             params.append(f"({lname(n)} : {ty})")
+        if self.needs_fuel:
+            params.append("(fuel : Nat)")
         for o, ty in self.oracles.items():
             params.append(f"({lname(o)} : {ty})")
         if self.effects:
